@@ -29,19 +29,38 @@ TRAPS_ORIGINS = (r'^param:c$', r'^param:encapsulation\.c$')
 ENCS_ORIGINS = (r'^param:encs$', r'^param:encapsulation\.encapsulations\.@(H|C)Encs\.0$', r'^local:')
 
 
+def traps_like(u):
+    """The iterated points are the traps of the encapsulation: a parameter that is a slice / Vec of points, or
+    the `c` field of an XEnc parameter."""
+    rt, rp = getattr(u, 'root_ty', ''), tuple(x for x in getattr(u, 'root_path', ()) if not str(x).startswith('@'))
+    if re.search(r'core::XEnc$', trans.strip_ref(rt)) and rp[-1:] == ('c',):
+        return True
+    if u.origin.startswith('param:') and '.' not in u.origin and re.search(r'(\[|Vec<).*(Point|PublicKey)', rt):
+        return True
+    return any(re.search(p, u.origin) for p in TRAPS_ORIGINS)
+
+
+def encs_like(u):
+    rt, rp = getattr(u, 'root_ty', ''), tuple(getattr(u, 'root_path', ()))
+    if re.search(r'core::XEnc$', trans.strip_ref(rt)) and 'encapsulations' in rp:
+        return True
+    if u.origin.startswith('local:'):
+        return True
+    if u.origin.startswith('param:') and '.' not in u.origin and re.search(r'(\[|Vec<)', rt) and not re.search(r'(Point|PublicKey)', rt):
+        return True
+    return any(re.search(p, u.origin) for p in ENCS_ORIGINS)
+
+
 def role(u):
     """Scheme-level role of a transcript input."""
     if u.origin.startswith('hash-output#'):
         return 'digest' + u.origin[-1]
     if u.kind == 'iter' and re.search(POINT, u.dtype):
-        ok = any(re.search(p, u.origin) for p in TRAPS_ORIGINS)
-        return 'traps' if ok else 'points-from(%s)' % u.origin
+        return 'traps' if traps_like(u) else 'points-from(%s)' % u.origin
     if u.kind == 'iter' and re.search(ENCAP, u.dtype):
-        ok = any(re.search(p, u.origin) for p in ENCS_ORIGINS)
-        return 'E' if ok else 'E-from(%s)' % u.origin
+        return 'E' if encs_like(u) else 'E-from(%s)' % u.origin
     if u.kind == 'iter' and re.match(r'^\[u8; \d+\]$', u.dtype):
-        ok = any(re.search(p, u.origin) for p in ENCS_ORIGINS)
-        return 'F' if ok else 'F-from(%s)' % u.origin
+        return 'F' if encs_like(u) else 'F-from(%s)' % u.origin
     return '%s:%s:%s' % (u.kind, u.origin, u.dtype.split('::')[-1])
 
 
@@ -295,7 +314,11 @@ def identity_to_param(F, body, op, name, depth=0):
             if pb is None or cop is None or not identity_to_param(F, pb, cop, name, depth + 1):
                 return False
         else:
-            if body.var_name(p) != name or [x for x in path if x != '*']:
+            same = body.var_name(p) == name
+            if not same and name == 'authentication_data':
+                opts = lib.params_by_type(body, r'^std::option::Option<&\[u8\]>$')
+                same = bool(opts) and p == opts[-1]
+            if not same or [x for x in path if x != '*']:
                 return False
     return True
 
